@@ -20,13 +20,13 @@ RULE = (
     "parses the printed `[Sheet::][Table::]ref`, determines the candidate tables from the document's names only and must find "
     "exactly one reading, identical to the stored target: same table, same coordinates (relative = host + offset), '$' exactly on "
     "the absolute components, range ends not swapped; a printed label must name exactly the stored row/column. The check is "
-    "repeated after a header label is rewritten , after a table is renamed and after a sheet is renamed (cache invalidation). Non-trivial: reference to another table, or a label, or a "
+    "repeated after a header label is rewritten , after a table is renamed, after a sheet is renamed, after a header count is set to zero and after a row/column is inserted (formulas whose host cell moved are left out) (cache invalidation). Non-trivial: reference to another table, or a label, or a "
     "mixed absolute/relative range; distinct by (configuration, reference)."
 )
 ASSUMPTIONS = [
     "a bare table name resolves in the host sheet first, then document-wide; over-qualification is not a violation",
     "labels are text that cannot be mistaken for A1 notation, contain no '::'/':' and row labels are disjoint from "
-    "column labels within a table (contested readings are not generated)",
+    "column labels within a table in three tables out of four; a label shared by a row and a column of one table is taken to name neither (it has two readings)",
     "reference nodes are installed through the table's formula list; the observation is Cell.formula",
 ]
 
@@ -59,10 +59,12 @@ def configs(draw):
             if style == "unique":
                 col_labels = {c: f"{lab or 'c'} {c}" for c, lab in col_labels.items()}
                 row_labels = {r: f"{lab or 'r'} row{r}" for r, lab in row_labels.items()}
-            # keep row and column label sets of one table disjoint (contested otherwise)
-            for r, lab in list(row_labels.items()):
-                if lab and lab in col_labels.values():
-                    row_labels[r] = lab + " r"
+            # one table in four keeps labels shared between its row and its column headers: such a label names neither
+            # a row nor a column unambiguously, so a reference printed with it would have two readings
+            if draw(st.integers(0, 3)) != 0:
+                for r, lab in list(row_labels.items()):
+                    if lab and lab in col_labels.values():
+                        row_labels[r] = lab + " r"
             tables.append({"name": name, "rows": rows, "cols": cols, "hr": hr, "hc": hc,
                            "col_labels": {str(k): v for k, v in col_labels.items()}, "row_labels": {str(k): v for k, v in row_labels.items()}})
         sheets.append({"name": SHEET_NAMES[si], "tables": tables})
@@ -297,15 +299,19 @@ def check_config(ctx, case):
             return
         d2, placed = res
 
-        def read_all(doc, phase, cfg):
+        def read_all(doc, phase, cfg, skip=None):
             for ref in placed:
+                if skip is not None and skip(ref):
+                    continue
                 hs, ht = ref["host_table"]
                 cell = doc.sheets[hs].tables[ht].cell(*ref["host"])
                 # the replay case is the original configuration plus the edits that led to this phase
                 sub = {"lane": "config", "config": config, "refs": [ref], "phase": phase,
                        "edit": case.get("edit") if phase != "reopened" else None,
-                       "rename": case.get("rename") if phase in ("after_rename", "after_sheet_rename") else None,
-                       "rename_sheet": case.get("rename_sheet") if phase == "after_sheet_rename" else None}
+                       "rename": case.get("rename") if phase not in ("reopened", "after_header_edit") else None,
+                       "rename_sheet": case.get("rename_sheet") if phase in ("after_sheet_rename", "after_header_zero", "after_insert") else None,
+                       "header_zero": case.get("header_zero") if phase in ("after_header_zero", "after_insert") else None,
+                       "insert": case.get("insert") if phase == "after_insert" else None}
                 ctx.ev()
                 with warnings.catch_warnings():
                     warnings.simplefilter("ignore")
@@ -371,6 +377,63 @@ def check_config(ctx, case):
             cfg4["sheets"][si]["name"] = new
             read_all(d2, "after_sheet_rename", cfg4)
             ctx.count("sheet_renames")
+            cfg_now = cfg4
+        # a header count set to zero: the labels of that axis stop being names
+        hz = case.get("header_zero")
+        if hz:
+            import copy
+
+            si, ti, axis = hz
+            tcn = cfg_now["sheets"][si]["tables"][ti]
+            if tcn["hr" if axis == "row" else "hc"] > 0:
+                cfg5 = copy.deepcopy(cfg_now)
+                t5 = cfg5["sheets"][si]["tables"][ti]
+                tab = d2.sheets[si].tables[ti]
+                if axis == "row":      # no header rows: no column labels
+                    tab.num_header_rows = 0
+                    t5["hr"], t5["col_labels"] = 0, {}
+                else:                   # no header columns: no row labels; the former header columns are body columns with
+                    tab.num_header_cols = 0   # an empty cell in the label row
+                    t5["hc"], t5["row_labels"] = 0, {}
+                    if t5["hr"]:
+                        for c in range(tcn["hc"]):
+                            t5["col_labels"][str(c)] = ""
+                read_all(d2, "after_header_zero", cfg5)
+                ctx.count("header_counts_zeroed")
+                cfg_now = cfg5
+        # a column / row inserted into a table: stored
+        # references keep their coordinates, the labels move on by one
+        ins = case.get("insert")
+        if ins:
+            import copy
+
+            si, ti, axis, frac = ins
+            tcn = cfg_now["sheets"][si]["tables"][ti]
+            n, h = (tcn["cols"], tcn["hc"]) if axis == "col" else (tcn["rows"], tcn["hr"])
+            ax = 1 if axis == "col" else 0
+            if h <= n - 1:
+                k = h + int(frac * (n - h))
+                # formulas hosted in the table at or after the insertion point move with their cells (their relative
+                # references then denote other cells): they are left out of this phase
+                moved_host = lambda r: r["host_table"] == [si, ti] and r["host"][ax] >= k  # noqa: E731
+                cfg6 = copy.deepcopy(cfg_now)
+                t6 = cfg6["sheets"][si]["tables"][ti]
+                tab = d2.sheets[si].tables[ti]
+                key = "col_labels" if axis == "col" else "row_labels"
+                if axis == "col":
+                    tab.add_column(1, k)
+                    t6["cols"] += 1
+                else:
+                    tab.add_row(1, k)
+                    t6["rows"] += 1
+                if t6[key] or (t6["hr"] if axis == "col" else t6["hc"]):
+                    moved = {str(int(i) + 1 if int(i) >= k else int(i)): lab for i, lab in t6[key].items()}
+                    if (t6["hr"] if axis == "col" else t6["hc"]):
+                        moved[str(k)] = ""
+                    t6[key] = moved
+                read_all(d2, "after_insert", cfg6, skip=moved_host)
+                ctx.count("lines_inserted")
+                cfg_now = cfg6
         ctx.count("configurations")
     finally:
         shutil.rmtree(tmp, ignore_errors=True)
@@ -391,7 +454,12 @@ def cases(draw, nrefs):
     rs, rt, _ = draw(st.sampled_from(tabs))
     rename = [rs, rt, draw(st.sampled_from(TABLE_NAMES + ["Renamed"]))]
     rename_sheet = [draw(st.integers(0, len(config["sheets"]) - 1)), draw(st.sampled_from(["Totals", "Q1 'draft'", "a-b", "Sheet 9"]))]
-    return {"lane": "config", "config": config, "refs": refs, "edit": edit, "rename": rename, "rename_sheet": rename_sheet}
+    hs, ht, _ = draw(st.sampled_from(tabs))
+    header_zero = [hs, ht, draw(st.sampled_from(["row", "col"]))] if draw(st.booleans()) else None
+    is_, it_, _ = draw(st.sampled_from(tabs))
+    insert = [is_, it_, draw(st.sampled_from(["row", "col"])), draw(st.floats(0, 0.999))]
+    return {"lane": "config", "config": config, "refs": refs, "edit": edit, "rename": rename, "rename_sheet": rename_sheet,
+            "header_zero": header_zero, "insert": insert}
 
 
 def tasks(tier, seed):
@@ -408,5 +476,5 @@ def run_task(ctx, lane, **kw):
 
 
 def check_case(ctx, case):
-    case = {k: v for k, v in case.items() if k in ("lane", "config", "refs", "edit", "rename", "rename_sheet")}
+    case = {k: v for k, v in case.items() if k in ("lane", "config", "refs", "edit", "rename", "rename_sheet", "header_zero", "insert")}
     check_config(ctx, case)
